@@ -7,6 +7,7 @@ from ..idx import index
 from ..px import OK, PX, RAISE, Closure, Outcomes
 from ..pxv import Obj, Sym
 from ..te import Member, TypeRef
+from .util import anchor_attrs
 from .util import const, fut, same_class, self_obj
 
 EZ = "bellows.ezsp"
@@ -46,6 +47,7 @@ def r17_1(ctx):
     the command's own response is seen); a refusal raises before waiting; the wait is inside asyncio_timeout and
     inside the listener's scope; the operation returns normally only after command acceptance and event arrival;
     and on every exit - success, refusal, exception, timeout, cancellation - the listener list is empty again."""
+    anchor_attrs(ctx, "EZSP", "_stack_status_listeners", "_callbacks")
     repo = ctx.repo
     es, sl = statuses(ctx)
     ezc = repo.cls(EZ, "EZSP")
